@@ -66,6 +66,16 @@ ASSUMPTIONS = [
     '(undocumented): only Y|eps=0 is asserted there',
     'initial estimates and bounds of new parameters (documented for covariate effects) are outside the property (model '
     'function only)',
+    'domain restrictions: occasion columns are integer valued; the placeholder eta_dummy left by remove_iiv() is not an eta; '
+    'transform_etas_*(None) may leave IOV etas alone; error-model setters on a BLQ-transformed model are exercised only where '
+    'pharmpy documents/implements the combination (proportional, combined, power; untransformed data); transform_blq below-LLOQ '
+    'likelihood is asserted only for the error models its docstring lists as supported; remove_iiv must restore custom eta '
+    'effects only when they are neutral at eta = 0',
+    'transit compartments are the compartments named TRANSIT<i> (docstring example) or classified as transit by pharmpy; mean '
+    'absorption / transit time parameters are the variables named MAT / MDT (numeric suffix when the plain name is taken): '
+    'first-order rate = 1/MAT, zero-order duration = 2*MAT (2*MDT in the sequential model), transit rates n/MDT (property text)',
+    'clause ids carry an attribution tag in [..] when the failing case has a recognisable generator shape (e.g. '
+    '[eps-name-not-uppercase], [same-transformation-applied-before]); known findings are keyed on these tags',
 ]
 
 RTOL = 1e-9
